@@ -88,6 +88,10 @@ def _walk(e):
             stack.extend(t.children())
 
 
+def _mentions_int(e):
+    return any(z3.is_int(t) for t in _walk(e))
+
+
 def _mentions_real(e):
     return any(z3.is_real(t) for t in _walk(e))
 
@@ -553,7 +557,7 @@ def check(assertions, timeout=30.0, want_model=False, solvers=None):
         except Exception:
             pass
         fv = free_vars(assertions)
-        has_int = any(z3.is_int(v) for v in fv.values())
+        has_int = any(z3.is_int(v) for v in fv.values()) or any(_mentions_int(a) for a in assertions)
         has_real = any(z3.is_real(v) for v in fv.values()) or any(_mentions_real(a) for a in assertions)
         has_uf = any(v.decl().arity() > 0 for v in [] ) or any(_has_uf(a) for a in assertions)
         if has_int and not has_real and not has_uf:
